@@ -126,8 +126,9 @@ class FakeSocket(object):
         self.wb_budget = wb_budget
         self.timeout = None
         self.dead = None      # once a transport fault fired: its kind
-        self.peer_gone = None  # 'epipe'|'reset': sends fail, receive buffer
-        #                        stays readable (peer closed after writing)
+        self.peer_gone = None  # 'epipe'|'reset'|'timeout': sends fail, the
+        #                        receive buffer stays readable (peer closed
+        #                        after writing / transport stalled)
 
     def _count(self, k, n=1):
         self.stats[k] = self.stats.get(k, 0) + n
@@ -160,6 +161,8 @@ class FakeSocket(object):
             raise _oserr(errno.ECONNRESET)
         if f == "epipe":
             raise _oserr(errno.EPIPE)
+        if f == "timeout":
+            raise socket.timeout("timed out")
         raise AssertionError(f)
 
     # -- socket API ---------------------------------------------------------
